@@ -36,6 +36,9 @@ pub struct Framed {
     pending_write: BytesMut,
     // Packet already removed from `buffer`, to be returned once its reply has been flushed.
     pending_packet: Option<Packet>,
+    // Bytes were handed to the transport since it was last flushed. Buffering transports
+    // (i.e. the websocket) may otherwise sit on a frame until the next write.
+    needs_flush: bool,
 }
 
 impl Framed {
@@ -50,6 +53,7 @@ impl Framed {
             verify_version: false,
             pending_write: BytesMut::new(),
             pending_packet: None,
+            needs_flush: false,
         }
     }
 
@@ -99,6 +103,12 @@ impl Framed {
                 return Err(std::io::Error::from(std::io::ErrorKind::WriteZero).into());
             }
             self.pending_write.advance(n);
+            self.needs_flush = true;
+        }
+
+        if self.needs_flush {
+            self.inner.flush().await?;
+            self.needs_flush = false;
         }
 
         Ok(())
@@ -168,7 +178,10 @@ impl Framed {
         self.flush_pending().await?;
         let mut buf = self.codec.encode(&packet.into())?;
         if !buf.is_empty() {
+            self.needs_flush = true;
             self.inner.write_all_buf(&mut buf).await?;
+            self.inner.flush().await?;
+            self.needs_flush = false;
         }
 
         Ok(())
